@@ -69,24 +69,25 @@ theorem C02_varint_magnitude (n : Nat) : beDec (magBytes n) = n := by
       rw [u8 _ (Nat.mod_lt _ (by omega))]
       omega
 
-/-- Records carrying extra trailing metadata fields keep their declared fields and the version; records without
+/-- Records carrying extra trailing metadata fields keep their declared fields and the version (`slotCount`: a field
+    name a descriptor lists twice counts once, as in `len(desc.fields)`); records without
     a version field are passed through unchanged (compatibility rule). -/
 theorem C02_compat_fit (d : Desc) (vals extra : List RV) (version : RV)
-    (h : vals.length = d.fields.length + Gen.RESERVED_FIELDS.length - 1) (he : extra ≠ []) :
+    (h : vals.length = d.slotCount + Gen.RESERVED_FIELDS.length - 1) (he : extra ≠ []) :
     fitValues d (vals ++ extra ++ [version]) = vals ++ [version] := by
   unfold fitValues
   have hx : 0 < extra.length := List.length_pos_iff.mpr he
   have hr : Gen.RESERVED_FIELDS.length = 4 := by decide
-  have hlen : (vals ++ extra ++ [version]).length > d.fields.length + Gen.RESERVED_FIELDS.length := by
+  have hlen : (vals ++ extra ++ [version]).length > d.slotCount + Gen.RESERVED_FIELDS.length := by
     simp only [List.length_append, List.length_cons, List.length_nil]; omega
   rw [if_pos hlen]
   have hlast : (vals ++ extra ++ [version]).getLast? = some version := by simp
   rw [hlast]
-  have : d.fields.length + Gen.RESERVED_FIELDS.length - 1 = vals.length := by omega
+  have : d.slotCount + Gen.RESERVED_FIELDS.length - 1 = vals.length := by omega
   rw [this, List.append_assoc, List.take_left' rfl]
 
 theorem C02_compat_unversioned (d : Desc) (vals : List RV)
-    (h : vals.length ≤ d.fields.length + Gen.RESERVED_FIELDS.length) : fitValues d vals = vals := by
+    (h : vals.length ≤ d.slotCount + Gen.RESERVED_FIELDS.length) : fitValues d vals = vals := by
   unfold fitValues
   rw [if_neg (by omega)]
 
